@@ -56,3 +56,26 @@ PROPS["C08"] = {
     ],
     "design_ref": "DESIGN.md §7 C08",
 }
+
+PROPS["C09"] = {
+    "title": "Receiver link credit",
+    "module": "Theorems.C09",
+    "theorems": [
+        "Amqp.RecvCredit.flow_reports",
+        "Amqp.RecvCredit.flow_reports_idle",
+        "Amqp.RecvCredit.attached_inv",
+        "Amqp.RecvCredit.enforces",
+        "Amqp.RecvCredit.auto_topup",
+        "Amqp.RecvCredit.no_stall",
+    ],
+    "harness": ["recvcredit"],
+    "gen_files": ["Amqp/Gen/CreditKernels.lean", "Amqp/Gen/RecvCreditKernels.lean"],
+    "technique": "Lean 4 proof: accounting invariant over all histories of wire arrivals / recv / dispose / set_credit / drain; closed-loop balance invariant for Auto(n); differential runs of a real Receiver against a scripted sender",
+    "level_text": "Machine-checked theorems over all histories for a model of the receiver's credit accounting (including the session-task / link-task split: deliveries queued ahead of a sender flow) whose arithmetic and thresholds are regenerated from link/state.rs, link/receiver.rs, link/receiver_link.rs and link/mod.rs; tied to the implementation by engine-level differential runs through the public API (Receiver over an in-memory pipe against a scripted sender, flows read off the wire); the property is evaluated on the wire view to produce replays.",
+    "level_note": "Trusted: Lean kernel; rs2lean extraction; harness + scripted peer (frame layout written independently of fe2o3_amqp::frames; performatives through serde_amqp). no_stall is stated for a credit-respecting sender and an application that disposes only what it received; an application that never disposes is covered by the safety theorems only (DESIGN.md §7 C09). Not modelled: ReceiverDisposer's concurrent path (same thresholds, extracted), resumption.",
+    "assumptions": COMMON_ASSUME + [
+        "tokio mpsc between session task and link is FIFO",
+        "no_stall: the sender transfers only while the receiver holds credit; the application disposes only deliveries it received",
+    ],
+    "design_ref": "DESIGN.md §7 C09",
+}
